@@ -2,15 +2,18 @@
    Processes.flush_write_queue hands the deque to os.write on a non-blocking pipe, at most BATCH items per call:
    a complete write drops the item, a partial write puts the rest back IN FRONT and stops, EAGAIN puts the whole
    item back in front and stops, EPIPE / any other OSError deletes the queue and marks the process broken.
-   Hand model of reactor/api/processes.py (write, flush_write_queue), tied by harness/wqueue.py, which runs the
-   real Processes against a scripted os.write.  Used by C05 (up / down order on the API), C13 (every event is written
+   Hand model of reactor/api/processes.py (write, flush_write_queue) over the put-back discipline and the batch size
+   that T14 reads from the source, tied by harness/wqueue.py, which runs the real Processes against a scripted os.write.  Used by C05 (up / down order on the API), C13 (every event is written
    as exactly one record) and C14 (replies in command order). *)
 From Coq Require Import ZArith List Bool Arith.
+From ExaV Require Export gen.Gen_WriteQueue.
 Import ListNotations.
 
 Inductive outcome := W (n : nat) | Again | Pipe | Err.
 
-Definition BATCH : nat := 10.
+(* BATCH, PARTIAL_FRONT, AGAIN_FRONT: regenerated from flush_write_queue on every run (T14, gen/Gen_WriteQueue.v) *)
+Definition put_back (front : bool) (d : list Z) (q : list (list Z)) : list (list Z) :=
+  if front then d :: q else q ++ [d].
 
 (* one queue during one flush: (queue, bytes delivered so far, deleted?) , quota left, script left *)
 Fixpoint drain (q : list (list Z)) (out : list Z) (budget : nat) (sc : list outcome)
@@ -28,8 +31,8 @@ Fixpoint drain (q : list (list Z)) (out : list Z) (budget : nat) (sc : list outc
         | [] => ((q, out, false), b, [])              (* the scripted pipe answers EAGAIN once its script is used up *)
         | W n :: sc' =>
             if (length d <=? n)%nat then drain q' (out ++ d) b sc'
-            else ((skipn n d :: q', out ++ firstn n d, false), b, sc')
-        | Again :: sc' => ((q, out, false), b, sc')
+            else ((put_back PARTIAL_FRONT (skipn n d) q', out ++ firstn n d, false), b, sc')
+        | Again :: sc' => ((put_back AGAIN_FRONT d q', out, false), b, sc')
         | Pipe :: sc' => (([], out, true), b, sc')
         | Err :: sc' => (([], out, true), b, sc')
         end
